@@ -30,10 +30,10 @@ func checkC04(c *Ctx, r *Report) {
 	c04Sum(r, p)
 	c04OneShot(r, p)
 	c04CfContract(r, p)
-	r.Floor("write_outcomes", 6)
+	r.Floor("write_outcomes", 4)
 	r.Floor("sum_outcomes", 2)
 	r.Floor("oneshot_outcomes", 4)
-	r.Floor("stream_obligations", 100)
+	r.Floor("stream_obligations", 50)
 }
 
 // c04CfContract: the compression function is used as a black box (block, chaining value) -> chaining value. That view is
